@@ -78,6 +78,7 @@ def run(idx, rep, tier):
     rep.rule("R3", "Scanner.is_last is true exactly at the greatest denoted line (end of file for '*'/'N*')")
     rep.rule("R4", "only included, non-blank lines are counted as scanned and matched; stop() at the scan's last line")
     rep.rule("R5", "scan grammar is LALR(1) conflict-free and every production has an action")
+    rep.rule("R6", "in a group run each member scans with its own line monitor and is driven on every line until it stops")
 
     # ---------------------------------------------------------------- R1
     rel = "csvpath/scanning/scanner.py"
@@ -199,6 +200,10 @@ def run(idx, rep, tier):
 
     # ---------------------------------------------------------------- R5
     r5(idx, rep, prods)
+    # ---------------------------------------------------------------- R6 (shared with C08): line numbers seen by a member
+    from . import c08
+    c08.copies(idx, rep, "R6")
+    c08.byline(idx, rep, "R6", "R6", tier, scenarios=("stops_a", "stops_b"), aspects=("schedule",))
     rep.stats["exhaustive"] = True
 
 
